@@ -18,6 +18,7 @@ mod c12;
 mod c13;
 mod c14;
 mod c15;
+mod c16;
 mod c18;
 mod c19;
 mod core;
@@ -99,6 +100,7 @@ fn main() {
                     "c11" => c11::replay(c),
                     "c13" => c13::replay(c, &setup),
                     "c14" => c14::replay(c),
+                    "c16" => c16::replay(c),
                     "c15" => c15::replay(c, &ls),
                     _ => {
                         eprintln!("unknown property {prop}");
@@ -112,6 +114,7 @@ fn main() {
             let cli = opt(&args, "--cli");
             let out = match prop {
                 "c02" => c02::record(seed, n, cli.as_deref()),
+                "c16" => c16::record(seed, n, cli.as_deref()),
                 "c18" => c18::record(cli.as_deref().expect("--cli"), args.iter().any(|a| a == "--thorough")),
                 "c03" => c03::record(seed, n),
                 "c04" => c04::record(seed, n),
